@@ -8,3 +8,4 @@ import Rpki.Props.C14
 #print axioms Rpki.Props.C14.iterUris_inside
 #print axioms Rpki.Props.C14.resolved_is_valid
 #print axioms Rpki.Props.C14.hashVerify_iff
+#print axioms Rpki.Props.C14.manifest_object_octets
